@@ -17,14 +17,17 @@ import H3.Gen.Headers
       the parsed value.  The laws the theorems need are listed in `HttpLaws`.
     * `HeaderMap` is an insertion-ordered list of groups (name, values in arrival order).
 
-    Five decisions of the code are read from the source on every run (`H3.Gen.Headers`):
+    Six decisions of the code are read from the source on every run (`H3.Gen.Headers`):
     `nameRejectsDquote`, `mapFallible`, `trailersRefusePseudo` — `true` on a tree with the three
     `fix:` commits of C12 and `false` on the tree before them —, `mapPresizeRefuses` — `false`
-    on a tree with the D-01 fix (a map that cannot be pre-sized starts empty), `true` before it —
-    and `hostEveryValue` — `true` on a tree with the D-12e fix (`into_request_parts` looks at every
-    `Host` value), `false` before it (only the first one).
+    on a tree with the D-01 fix (a map that cannot be pre-sized starts empty), `true` before it —,
+    `hostEveryValue` — `true` on a tree with the D-12e fix (`into_request_parts` looks at every
+    `Host` value), `false` before it (only the first one) — and `otherKindRefused` — `true` on a
+    tree with the D-12f fix (`into_request_parts` refuses a section with a `:status` field,
+    `into_response_parts` one with a request pseudo-header field), `false` before it (they were
+    ignored).
     The model follows the tree it is built against; the theorems need `mapPresizeRefuses = false`
-    and the other four `true`. -/
+    and the other five `true`. -/
 namespace H3.Headers
 open H3.Gen
 
@@ -313,10 +316,18 @@ def allFirst : List Bytes → Bool
   | [] => true
   | first :: rest => rest.all (· == first)
 
-/-- `Header::into_request_parts`: `:path` and `:scheme` go to the builder when present, then (with
+/-- `self.pseudo.method.is_some() || … .scheme … || … .authority … || … .path … || … .protocol …`:
+    a pseudo-header field defined for requests was parsed. -/
+def Pseudo.hasRequestField (p : Pseudo) : Bool :=
+  p.method.isSome || p.scheme.isSome || p.authority.isSome || p.path.isSome || p.protocol.isSome
+
+/-- `Header::into_request_parts`: first (with the D-12f fix, `otherKindRefused`) a section in which a
+    `:status` field was parsed is refused with `InvalidHeaderName`; `:path` and `:scheme` go to the
+    builder when present, then (with
     the D-12e fix, `hostEveryValue`) a request whose `Host` values are not all the same is refused,
     then the authority decision, then `:method` is demanded, then `build()`. -/
 def Header.intoRequestParts (H : Http) (h : Header) : Res RequestParts :=
+  if Headers.otherKindRefused && h.pseudo.status.isSome then .err .invalidHeaderName else
   if Headers.hostEveryValue && !allFirst (hmGroup h.fields nHost) then .err .contradictedAuthority else
   match chooseAuthority h.pseudo.authority (hmGet h.fields nHost) with
   | .err e => .err e
@@ -329,8 +340,11 @@ def Header.intoRequestParts (H : Http) (h : Header) : Res RequestParts :=
       | none => .err .invalidRequest
       | some u => .ok { method := m, uri := u, protocol := h.pseudo.protocol, headers := h.fields }
 
-/-- `Header::into_response_parts`. -/
+/-- `Header::into_response_parts`: first (with the D-12f fix, `otherKindRefused`) a section in which
+    a request pseudo-header field was parsed is refused with `InvalidHeaderName`; then `:status` is
+    demanded. -/
 def Header.intoResponseParts (h : Header) : Res (Nat × HeaderMap) :=
+  if Headers.otherKindRefused && h.pseudo.hasRequestField then .err .invalidHeaderName else
   match h.pseudo.status with
   | none => .err .missingStatus
   | some s => .ok (s, h.fields)
@@ -376,11 +390,19 @@ def siteResolve (_ : HeaderError) : Refusal :=
   { scope := .stream, code := Headers.resolveCode,
     stopSending := Headers.resolveStopSending, reset := Headers.resolveReset }
 
-/-- `client/stream.rs`, `recv_response`: arm 0 = error of `try_from`, arm 1 = of
-    `into_response_parts`. -/
-def siteRecvResponse (e : HeaderError) : Refusal :=
-  let arm := (if e = .missingStatus then Headers.recvResponseArms[1]? else Headers.recvResponseArms[0]?).getD (0, 0)
+/-- `client/stream.rs`, `recv_response`: two `map_err` arms, the first after `try_from`, the
+    second (`second = true`) after `into_response_parts`; neither looks at the `HeaderError`. -/
+def siteRecvResponse (second : Bool) (_ : HeaderError) : Refusal :=
+  let arm := (if second then Headers.recvResponseArms[1]? else Headers.recvResponseArms[0]?).getD (0, 0)
   { scope := .stream, code := arm.2, stopSending := some arm.1, reset := none }
+
+/-- which of the two arms of `recv_response` a refusal of `recvResponse` goes through: `try_from`
+    succeeded, so it is `into_response_parts` that refused (since the D-12f fix `InvalidHeaderName`
+    can come from either). -/
+def recvResponseSecond (H : Http) (fs : List FieldLine) : Bool :=
+  match tryFrom H fs with
+  | .ok _ => true
+  | _ => false
 
 /-- `connection.rs`, `poll_recv_trailers`. -/
 def siteRecvTrailers (_ : HeaderError) : Refusal :=
